@@ -141,6 +141,9 @@ pub struct RecvRec {
     pub start_step: u32,
     pub seq: u64,
     pub step: u32,
+    /// step in which a blocking wait ended (== step unless the datagram was consumed later, as with
+    /// readable() ... try_recv)
+    pub ready_step: u32,
     pub sock: usize,
     pub buf: usize,
     /// the first poll of a blocking receive found the queue empty
@@ -533,13 +536,13 @@ impl Model {
                 }
                 recv_step_of.insert((id, r.sock), r.step);
                 // a blocking receive that waited must not complete after the deadline of an owed datagram
-                if r.first_pending && r.step > r.start_step {
+                if r.first_pending && r.ready_step > r.start_step {
                     let same = self.is_same_host(d, x);
-                    if r.step > self.deadline_step(d, same) && self.stable_yes(d, r.sock) && self.depth_bound(d, r.sock, &recv_step_of) < self.cfg.capacity {
+                    if r.ready_step > self.deadline_step(d, same) && self.stable_yes(d, r.sock) && self.depth_bound(d, r.sock, &recv_step_of) < self.cfg.capacity {
                         return (
                             Some(Bad {
                                 class: "Late",
-                                message: format!("{} waited in recv_from since step {} and got datagram {} (sent in step {}) only in step {}, after the deadline step {}", x.name, r.start_step, id, d.step, r.step, self.deadline_step(d, same)),
+                                message: format!("{} waited in recv_from since step {} and got datagram {} (sent in step {}) only in step {}, after the deadline step {}", x.name, r.start_step, id, d.step, r.ready_step, self.deadline_step(d, same)),
                             }),
                             stats,
                         );
@@ -651,8 +654,8 @@ impl Model {
         for r in &self.recvs {
             match &r.outcome {
                 Outcome::Empty => obs.entry(r.sock).or_default().push((r.seq, r.step)),
-                Outcome::Timeout if r.first_pending && r.step > r.start_step => obs.entry(r.sock).or_default().push((r.seq, r.step - 1)),
-                Outcome::Data { .. } if r.first_pending && r.step > r.start_step + 1 => obs.entry(r.sock).or_default().push((r.start_seq, r.step - 1)),
+                Outcome::Timeout if r.first_pending && r.ready_step > r.start_step => obs.entry(r.sock).or_default().push((r.seq, r.ready_step - 1)),
+                Outcome::Data { .. } if r.first_pending && r.ready_step > r.start_step + 1 => obs.entry(r.sock).or_default().push((r.start_seq, r.ready_step - 1)),
                 _ => {}
             }
         }
@@ -720,7 +723,7 @@ mod tests {
         Outcome::Data { len: n, origin: Some(origin.parse().unwrap()), bytes: p[..n].to_vec() }
     }
     fn rcv(sock: usize, seq: u64, step: u32, buf: usize, o: Outcome) -> RecvRec {
-        RecvRec { start_seq: seq, start_step: step, seq, step, sock, buf, first_pending: false, outcome: o }
+        RecvRec { start_seq: seq, start_step: step, seq, step, ready_step: step, sock, buf, first_pending: false, outcome: o }
     }
 
     #[test]
